@@ -32,6 +32,7 @@ class Harness:
         self.seq = 0
         self._agents: list[tuple[int, str, Callable[[], None], str]] = []
         self.actors: list[Actor] = []
+        self.finished = False  # set when all actors are done: agents stop firing
         self.aborted: str | None = None
         self.abort_marks: list[Callable[[], None]] = []
         hooks = getattr(self.loop, "abort_hooks", None)
@@ -82,6 +83,9 @@ class Harness:
                 continue
 
             def tick(n: int, fn: Callable[[], None] = fn, label: str = label) -> None:
+                if self.finished or self.aborted:
+                    return
+
                 if n <= 0:
                     self.ev("agent", label)
                     fn()
@@ -173,3 +177,5 @@ async def run_actors(
         h._register("after")
         if natives:
             await asyncio.wait(natives)
+
+    h.finished = True
